@@ -312,3 +312,240 @@ DB_GET_FIELD_KEYS = _db_keys_getter("get_field_keys", has_fld, fldsd, "fk")
 from .measurement_c import forward
 forward("get_tag_keys", DB_GET_TAG_KEYS, LStrU, {})
 forward("get_field_keys", DB_GET_FIELD_KEYS, LStrU, {})
+
+
+# ---------------------------------------------------------------------------------------------- timestamps
+LReal = TList(TReal)
+
+
+def in_insertion_order(R, L, n, P, m, value, src, rank, proj=lambda x: x, sel=None):
+    """R lists value(point) for exactly the stored points selected (by the measurement filter, and by `sel` when given), in storage
+    (insertion) order: src(a) is the storage position behind R[a] (strictly increasing); every selected point i appears, at rank(i)
+    (rank=None: at some place)"""
+    a, b, i = z3.Int(fresh_name("a")), z3.Int(fresh_name("b")), z3.Int(fresh_name("i"))
+    chosen = (lambda p: selm(m, p)) if sel is None else (lambda p: z3.And(selm(m, p), sel(p)))
+    if rank is not None:
+        appears = lambda i_: z3.And(0 <= rank(i_), rank(i_) < L, src(rank(i_)) == i_)
+    else:
+        appears = lambda i_: z3.Exists([a], z3.And(S.Tr(a), 0 <= a, a < L, src(a) == i_), patterns=[S.Tr(a), src(a)])
+    return [("each_is_a_selected_point", forall([a], z3.Implies(z3.And(0 <= a, a < L), z3.And(0 <= src(a), src(a) < n, chosen(P(src(a))), proj(l_at(R, a)) == value(P(src(a))))), patterns=[l_at(R, a)])),
+            ("insertion_order", forall([a, b], z3.Implies(z3.And(0 <= a, a < b, b < L), src(a) < src(b)), patterns=[z3.MultiPattern(src(a), src(b))])),
+            ("every_selected_point", forall([i], z3.Implies(z3.And(0 <= i, i < n, S.Tr(i), chosen(P(i))), appears(i)), patterns=[P(i)]))]
+
+
+@contract("tinyflux.index.Index.get_timestamps")
+class _ix_get_timestamps(Contract):
+    """C07/C08: the POSIX timestamps of exactly the represented points (of the given measurement), in insertion order"""
+    params = dict(self=IX, measurement=OStrU)
+    defaults = dict(measurement=lambda ex: Val(OStrU, o_none(OStrU)))
+    ret = LReal
+    modifies = ()
+    witness_sig = {"src": ([TInt], TInt), "rank": ([TInt], TInt)}
+
+    @staticmethod
+    def requires(c):
+        return repr_self(c.self, parts=("num", "meas", "time"))
+
+    @staticmethod
+    def _posinv(c):
+        return z3.Function("position_in_time_order", c.self.t["_storage_pos_sorted_by_ts"].t.sort(), z3.IntSort(), z3.IntSort())
+
+    @staticmethod
+    def lemmas(c):
+        # conservative: the Skolemised form of requires[time_pos_onto]
+        p = c.self.t["_storage_pos_sorted_by_ts"].t
+        n, _ = view_of(c.self)
+        i = z3.Int(fresh_name("i"))
+        pinv = _ix_get_timestamps._posinv(c)
+        return [("skolem_of_time_pos_onto", forall([i], z3.Implies(z3.And(0 <= i, i < n), z3.And(0 <= pinv(p, i), pinv(p, i) < n, l_at(p, pinv(p, i)) == i)), patterns=[pinv(p, i)]))]
+
+    @staticmethod
+    def witness(c):
+        p = c.self.t["_storage_pos_sorted_by_ts"].t
+        posinv = lambda i: _ix_get_timestamps._posinv(c)(p, i)
+        ls, lf = c.ghost.get("last_sort"), c.ghost.get("last_filter")
+        if ls is None:  # `return []`
+            return {"src": lambda a: a, "rank": lambda i: i}
+        if "if0:T" in c.path:  # no filter
+            return {"src": lambda a: l_at(p, ls["pi"](a)), "rank": lambda i: ls["pinv"](posinv(i))}
+        return {"src": lambda a: l_at(p, lf["s"](ls["pi"](a))), "rank": lambda i: ls["pinv"](lf["inv"](posinv(i)))}
+
+    @staticmethod
+    def ensures(c):
+        n, P = view_of(c.self)
+        return in_insertion_order(c.result.t, l_len(c.result.t), n, P, c.measurement, ts, c.wit["src"], c.wit["rank"])
+
+
+LDt = TList(Dt)
+
+
+@contract("tinyflux.storages.Storage._deserialize_timestamp")
+class _abs_deserialize_timestamp(Contract):
+    """ASSUMED (abstract Storage contract): the item's time as the storage reads it; once marked UTC (.replace(tzinfo=utc), what every caller does) it is the time of the decoded point"""
+    params = dict(self=STG, item=Item)
+    ret = Dt
+    assumed = True
+
+    @staticmethod
+    def ensures(c):
+        return [("time_of_item", z3.Function("dt_replace_tz", sort_of(Dt), sort_of(Dt))(c.result.t) == time_of(dec(c.item.t)))]
+
+
+@contract("tinyflux.database.TinyFlux.get_timestamps")
+class _db_get_timestamps(Contract):
+    """C07/C08: the instants (as timestamp() sees them) of exactly the stored points (of the measurement), in insertion order - the same via a valid index and via a scan"""
+    params = dict(self=DB, measurement=OStrU)
+    defaults = dict(measurement=lambda ex: Val(OStrU, o_none(OStrU)))
+    ret = LDt
+    modifies = ("_index",)
+    theories = ("time",)
+    raises = db_c.READ_RAISES
+    witness_sig = {"src": ([TInt], TInt), "rank": ([TInt], TInt)}
+    ghost_vars = ("gsrc", "grank")
+    ghost_init = "gsrc = []; grank = {}"
+    ghost_after = [("rst.append(_time.replace", "gsrc.append(_t); grank[_t] = len(rst) - 1")]
+    locals = dict(gsrc=TList(TInt), grank=TDict(TInt, TInt), rst=LDt)
+
+    @staticmethod
+    def requires(c):
+        return dbinv(c.self)
+
+    @staticmethod
+    def witness(c):
+        if "if1:T" in c.path:
+            w = c.ghost.get("wit:tinyflux.index.Index.get_timestamps") or {}
+            nf = lambda nm: z3.Function(fresh_name("no_witness_" + nm), z3.IntSort(), z3.IntSort())
+            return {"src": w["src"] if "src" in w else nf("src"), "rank": w["rank"] if "rank" in w else nf("rank")}
+        return {"src": lambda a: l_at(c.gsrc.t, a), "rank": lambda i: z3.Select(d_val(c.grank.t), i)}
+
+    @staticmethod
+    def _inv(c):
+        t = c.loop(0).t
+        items = c.self.t["_storage"].t["items"].t
+        P = lambda j: dec(l_at(items, j))
+        src = lambda a: l_at(c.gsrc.t, a)
+        rank = lambda i: z3.Select(d_val(c.grank.t), i)
+        return [("ghost_len", l_len(c.gsrc.t) == l_len(c.rst.t))] + in_insertion_order(c.rst.t, l_len(c.rst.t), t, P, c.measurement, ts, src, rank, proj=dt_ts)
+
+    loops = {0: dict(inv=lambda c: _db_get_timestamps._inv(c))}
+
+    @staticmethod
+    def ensures(c):
+        items = c.old.self.t["_storage"].t["items"].t
+        return in_insertion_order(c.result.t, l_len(c.result.t), l_len(items), lambda i: dec(l_at(items, i)), c.measurement, ts, c.wit["src"], c.wit["rank"], proj=dt_ts) + dbinv(c.self) + db_c.storage_unchanged(c)
+
+
+forward("get_timestamps", _db_get_timestamps, LDt, {})
+
+
+# ---------------------------------------------------------------------------------------------- field values
+LFldV = TList(FldV)
+
+
+@contract("tinyflux.index.Index.get_field_values")
+class _ix_get_field_values(Contract):
+    """C07: the values of the field key for exactly the represented points that carry it (of the given measurement), in insertion order"""
+    params = dict(self=IX, field_key=TStr, measurement=OStrU)
+    defaults = dict(measurement=lambda ex: Val(OStrU, o_none(OStrU)))
+    ret = LFldV
+    modifies = ()
+    witness_sig = {"src": ([TInt], TInt)}
+    ghost_vars = ("gsi",)
+    ghost_init = "gsi = []"
+    ghost_after = [("rst.extend(", "gsi = __filter_indices__()")]  # which entries of the key's posting list were kept
+    locals = dict(gsi=TList(TInt), rst=LFldV)
+
+    @staticmethod
+    def requires(c):
+        return repr_self(c.self, parts=("num", "meas", "fields"))
+
+    @staticmethod
+    def _spec(c, R, src):
+        n, P = view_of(c.self)
+        k = c.field_key.t
+        return in_insertion_order(R, l_len(R), n, P, c.measurement, lambda p: fld(p, k), src, None, sel=lambda p: has_fld(p, k))
+
+    @staticmethod
+    def witness(c):
+        F = c.self.t["_fields"].t
+        k = c.field_key.t
+        if "loop0:exit" in c.path:
+            return {"src": lambda a: t_get(l_at(z3.Select(d_val(F), k), l_at(c.gsi.t, a)), 0)}
+        return {"src": lambda a: t_get(l_at(z3.Select(d_val(F), k), a), 0)}
+
+    @staticmethod
+    def _inv(c):
+        li = c.loop(0)
+        F = c.self.t["_fields"].t
+        k = c.field_key.t
+        seen = z3.And(z3.Select(d_dom(F), k), li.extra["idx"](k) < li.t)
+        spec = _ix_get_field_values._spec(c, c.rst.t, lambda a: t_get(l_at(z3.Select(d_val(F), k), l_at(c.gsi.t, a)), 0))
+        return [("ghost_len", l_len(c.gsi.t) == l_len(c.rst.t)), ("nothing_before_the_key", z3.Implies(z3.Not(seen), l_len(c.rst.t) == 0))] + \
+               [(label, z3.Implies(seen, f)) for label, f in spec]
+
+    loops = {0: dict(inv=lambda c: _ix_get_field_values._inv(c))}
+
+    @staticmethod
+    def ensures(c):
+        return _ix_get_field_values._spec(c, c.result.t, c.wit["src"])
+
+
+@contract("tinyflux.database.TinyFlux.get_field_values")
+class _db_get_field_values(Contract):
+    """C07: the values of the field key for exactly the stored points that carry it (of the measurement), in insertion order - the same via a valid index and via a scan"""
+    params = dict(self=DB, field_key=TStr, measurement=OStrU)
+    defaults = dict(measurement=lambda ex: Val(OStrU, o_none(OStrU)))
+    ret = LFldV
+    modifies = ("_index",)
+    theories = ()
+    raises = db_c.READ_RAISES
+    witness_sig = {"src": ([TInt], TInt)}
+    ghost_vars = ("gsrc", "gj")
+    ghost_init = "gsrc = []; gj = 0"
+    ghost_after = [("_point = self._storage._deserialize_storage_item(item)", "gj = _t"), ("rst.append(fv)", "gsrc.append(gj)")]
+    locals = dict(gsrc=TList(TInt), gj=TInt, rst=LFldV)
+
+    @staticmethod
+    def requires(c):
+        return dbinv(c.self)
+
+    @staticmethod
+    def _spec(c, R, n, src, items=None):
+        items = c.self.t["_storage"].t["items"].t if items is None else items
+        k = c.field_key.t
+        return in_insertion_order(R, l_len(R), n, lambda i: dec(l_at(items, i)), c.measurement, lambda p: fld(p, k), src, None, sel=lambda p: has_fld(p, k))
+
+    @staticmethod
+    def witness(c):
+        if "if1:T" in c.path:
+            w = c.ghost.get("wit:tinyflux.index.Index.get_field_values") or {}
+            return {"src": w["src"] if "src" in w else z3.Function(fresh_name("no_witness_src"), z3.IntSort(), z3.IntSort())}
+        return {"src": lambda a: l_at(c.gsrc.t, a)}
+
+    @staticmethod
+    def _inv0(c):
+        return [("ghost_len", l_len(c.gsrc.t) == l_len(c.rst.t))] + _db_get_field_values._spec(c, c.rst.t, c.loop(0).t, lambda a: l_at(c.gsrc.t, a))
+
+    @staticmethod
+    def _inv1(c):
+        lo, li = c.loop(0), c.loop(1)
+        items = c.self.t["_storage"].t["items"].t
+        p = dec(l_at(items, lo.t))
+        k = c.field_key.t
+        seen = z3.And(has_fld(p, k), li.extra["idx"](k) < li.t)
+        src = lambda a: l_at(c.gsrc.t, a)
+        before = _db_get_field_values._spec(c, c.rst.t, lo.t, src)
+        after = _db_get_field_values._spec(c, c.rst.t, lo.t + 1, src)
+        return [("ghost_len", l_len(c.gsrc.t) == l_len(c.rst.t)),
+                ("current_point", z3.And(c._point.t == p, c.gj.t == lo.t, lo.t < l_len(items), selm(c.measurement, p)))] + \
+               [(lb, z3.If(seen, fa, fb)) for (lb, fb), (_, fa) in zip(before, after)]
+
+    loops = {0: dict(inv=lambda c: _db_get_field_values._inv0(c)), 1: dict(inv=lambda c: _db_get_field_values._inv1(c))}
+
+    @staticmethod
+    def ensures(c):
+        items = c.old.self.t["_storage"].t["items"].t
+        return _db_get_field_values._spec(c, c.result.t, l_len(items), c.wit["src"], items=items) + dbinv(c.self) + db_c.storage_unchanged(c)
+
+
+forward("get_field_values", _db_get_field_values, LFldV, dict(field_key=TStr))
